@@ -725,7 +725,7 @@ def add_violation(res, sig, r, detail=None):
 
 
 def generate(module, cfgfile, cfgs, defines, sink, timeout=1500, simulate=None, depth=None, seed=None):
-    d = {"Cfgs": cfgs_tla(cfgs), "TWTables": "{}", "TWShapeKinds": "{}", "FreeDepth": "1", "FreeKeys": "{}", "FreeSlots": "{}",
+    d = {"Cfgs": cfgs_tla(cfgs), "TWTables": "{}", "TWShapeKinds": "{}", "EWDamaged": "FALSE", "FreeDepth": "1", "FreeKeys": "{}", "FreeSlots": "{}",
          "GMDepth": "4", "GMWide": "1", "GMMaxFld": "2", "GMMaxArr": "2", "GMTail": "2", "GMShallow": "2", "GMSeeds": "<< >>", "GMSlots": "{}", "GMFields": '{"uf1"}',
          "GMKinds": '{"plain", "email", "num", "bool", "dollar", "date", "oid", "b64", "nsname", "null", "empty"}'}
     d.update(defines or {})
